@@ -54,7 +54,7 @@ def handleTokens (args : List String) (obs : String) : String :=
 
 def expectedOutcome (k0 : Char) : String :=
   let k := k0.toLower
-  if k == 'g' ∨ k == 'k' ∨ k == 'v' then "200" else if k == 'e' ∨ k == 'p' then "500" else if k == 'd' then "closed"
+  if k == 'g' ∨ k == 'k' ∨ k == 'v' ∨ k == 'y' then "200" else if k == 'e' ∨ k == 'p' then "500" else if k == 'd' then "closed"
   else if k == 'm' then "400" else if k == 'x' then "413" else if k == 'r' then "200+200" else "-"
 
 /-- Canonical schedule on the model: clients are accepted in order; when no slot is free the oldest connection
@@ -231,7 +231,7 @@ def handleStall (_args : List String) (obs : String) : String :=
   model ++ "\t" ++ verdict
 
 def respLen (p : Char) (i : Nat) : Nat :=
-  if p.toLower == 'i' ∨ p.toLower == 'h' then 2 else if p == 'r' ∨ p == 'x' ∨ p == 'f' then 5 + (toString i).length else if p == 'b' then 7 else 6 * 1024 * 1024
+  if p.toLower == 'i' ∨ p.toLower == 'h' then 2 else if p == 'r' ∨ p == 'x' ∨ p == 'f' then 5 + (toString i).length else if p == 'b' then 7 else if p == 's' then 8 else 6 * 1024 * 1024
 
 /-- c13 `<n> <phases> <delay>` -/
 def handleShutdown (args : List String) (obs : String) : String :=
